@@ -93,10 +93,15 @@ def run_lint(sd, vecs, tag):
     return outs
 
 
-def run_api(sd, vecs, tag):
+def run_api(sd, vecs, tag, frames=None):
     fin, fout = os.path.join(sd, tag + '-in.jsonl'), os.path.join(sd, tag + '-out.jsonl')
     vplib.write_jsonl(fin, [dict(v, id=i) for i, v in enumerate(vecs)])
-    vplib.run_harness(['avail-api', fin, fout], timeout=600)
+    cmd = ['avail-api', fin, fout]
+    if frames is not None:
+        ff = os.path.join(sd, tag + '-frames.json')
+        json.dump(frames, open(ff, 'w'))
+        cmd.append(ff)
+    vplib.run_harness(cmd, timeout=1200)
     outs = vplib.read_jsonl(fout)
     if len(outs) != len(vecs):
         raise Inconclusive('harness returned %d results for %d vectors' % (len(outs), len(vecs)))
@@ -111,6 +116,8 @@ def lint_mismatches(vecs, outs):
             raise Inconclusive('vector %s / %s / %s / variant %d: diagnostics other than the availability verdict, the '
                                'placeholder cannot be judged in isolation: %s\n%s'
                                % (v['pos'], v['name'], v['emb'], v['variant'], o['others'][:3], o.get('src', '')))
+        if v.get('ambiguous'):
+            continue        # the documentation can be read both ways for this name at this position (DESIGN 5.22)
         if reported(v, o) == v['allowed']:
             bad.append((v, o))
     return bad
@@ -187,8 +194,10 @@ def run(ck, tier):
 
     # ---- G, API level: availability.go against the transcription; checker against the table
     api_in = rows + apis
-    api_out = run_api(sd, api_in, 'api')
+    frames = sorted(header['frames'])
+    api_out = run_api(sd, api_in, 'api', frames)
     checker = collections.OrderedDict()
+    tree = collections.OrderedDict()
     for v, o in zip(api_in, api_out):
         if o['others']:
             raise Inconclusive('API vector %s / %s: observable not understood: %s' % (v['key'], v.get('name'), o['others'][:3]))
@@ -205,6 +214,17 @@ def run(ck, tier):
             for spelling, rep in (('documented', o['reported']), ('UPPER', o['reported_upper'])):
                 if rep == v['allowed']:
                     checker.setdefault((v['name'], v['nkind'], spelling, v['allowed']), []).append(v['key'])
+            # the occurrence at every place of the expression tree (Availability.tla, FrameSeqs): same verdict
+            for occ, bits in (('W(NAME)', o.get('tree', '')), ('NAME', o.get('tree_raw', ''))):
+                if len(bits) != len(frames):
+                    raise Inconclusive('API vector %s / %s: %d tree verdicts for %d frame sequences'
+                                       % (v['key'], v['name'], len(bits), len(frames)))
+                want_bad = '1' if v['allowed'] else '0'
+                for i, b in enumerate(bits):
+                    if b == want_bad:
+                        tree.setdefault((v['name'], v['nkind'], v['allowed']), []).append(
+                            {'key': v['key'], 'frames': frames[i], 'occurrence': occ})
+                ck.cov['tree_evaluations'] = ck.cov.get('tree_evaluations', 0) + sum(1 for b in bits if b != '-')
     for (name, nkind, spelling, allowed), keys in checker.items():
         ck.violation('api:checker:' + name,
                      'ExprSemanticsChecker configured with WorkflowKeyAvailability(key) %s %s %r (%s spelling) although GitHub\'s '
@@ -212,7 +232,16 @@ def run(ck, tier):
                                                        'allows' if allowed else 'does not allow', len(keys), keys[:6]),
                      {'kind': 'api', 'name': name, 'nkind': nkind, 'spelling': spelling, 'allowed': allowed, 'keys': keys[:8],
                       'observed_reported': allowed})
+    for (name, nkind, allowed), cases in tree.items():
+        shapes = sorted({'.'.join(c['frames']) for c in cases})
+        ck.violation('api:tree:' + name,
+                     'the verdict depends on where in the expression tree the name occurs: %s %r is %s by ExprSemanticsChecker '
+                     'although GitHub\'s table %s it, in %d (key, place) cases; places (frames, innermost first): %s; e.g. key %r'
+                     % (nkind, name, 'reported' if allowed else 'not reported', 'allows' if allowed else 'does not allow',
+                        len(cases), shapes[:8], cases[0]['key']),
+                     {'kind': 'tree', 'name': name, 'nkind': nkind, 'allowed': allowed, 'cases': cases[:8], 'places': shapes[:40]})
     ck.cov['api_vectors'] = len(api_in)
+    ck.cov['expression_tree_places'] = len(frames)
 
     # ---- vacuity guard: at every governed position both verdicts must have been observed on the real code
     if not bad:
@@ -235,7 +264,7 @@ def run(ck, tier):
             raise Inconclusive('binding self-test failed: a flipped prediction was not rejected')
 
     npos = len(header['positions'])
-    ck.cov['evaluations'] += len(vecs) + len(api_in)
+    ck.cov['evaluations'] += len(vecs) + len(api_in) + ck.cov.get('tree_evaluations', 0)
     ck.cov['traces_validated_against_impl'] += len(vecs) + len(api_in)
     ck.cov['distinct_nontrivial'] += sum(1 for v in vecs if not v['allowed']) + sum(1 for v in apis if not v['allowed'])
     ck.cov['positions'] = npos
@@ -262,8 +291,8 @@ def run(ck, tier):
         'where the code passes a shorter/longer key with the same row (container.image) the verdicts coincide',
         'names are embedded as fromJSON(toJSON(NAME)) (type any) so that no type diagnostic interferes (DESIGN 5.22)',
         '`jobs` exists only for on.workflow_call.outputs.<id>.value: elsewhere `undefined variable "jobs"` counts as reported',
-        'container/services `env: ${{ }}` (one expression for the whole mapping) is not catalogued: the documentation does not '
-        'say which of two keys applies',
+        'container/services `env: ${{ }}` (one expression for the whole mapping): the documentation does not say whether the row '
+        'of `...container` or of `...env.<env_id>` applies; only names on which both rows agree are judged there',
         'positions without a table key where other rules report on a placeholder (event types, filters, cron, needs, uses, '
         'step id, permissions) are not catalogued; at the catalogued ones the property reading "nothing is allowed" is checked, '
         'but a position the code leaves entirely unrestricted is only noted (DESIGN 5.22)',
@@ -291,6 +320,17 @@ def replay(path):
         exp = (low(rp['ctx']), low(rp['fns']))
         print('WorkflowKeyAvailability(%r) = %s, table: %s' % (rp['key'], got, exp))
         return 0 if got == exp else 1
+    if rp['kind'] == 'tree':
+        fails = 0
+        for c in rp['cases']:
+            v = {'kind': 'api', 'key': c['key'], 'name': rp['name'], 'nkind': rp['nkind']}
+            o = run_api(sd, [v], 'replay', [c['frames']])[0]
+            bit = (o['tree'] if c['occurrence'] == 'W(NAME)' else o['tree_raw'])[0]
+            print('key %r, %s %r as %s under %s: table allows=%s, checker reported=%s others=%s'
+                  % (c['key'], rp['nkind'], rp['name'], c['occurrence'], c['frames'], rp['allowed'], bit == '1', o['others']))
+            if not o['others'] and (bit == '1') == rp['allowed']:
+                fails += 1
+        return 1 if fails else 0
     vecs = [{'kind': 'api', 'key': k, 'name': rp['name'], 'nkind': rp['nkind']} for k in rp['keys']]
     fails = 0
     for v, o in zip(vecs, run_api(sd, vecs, 'replay')):
